@@ -396,6 +396,43 @@ func scannerSets(c *Ctx, rule string) {
 
 func ruleS5(c *Ctx) { scannerSets(c, "S5") }
 
+// S7: the reason ends before the terminator that was actually skipped. Every Reason.Extend in ParseFLine gets
+// skipLine's offset minus the line-end length returned by the same skipLine call (1 for a lone CR or LF, 2 for CR LF)
+// — not a literal 2 — on the one-shot and on the resumed path alike.
+func ruleS7(c *Ctx) {
+	fn := c.SFuncs["ParseFLine"]
+	if fn == nil {
+		c.fail("S7", "ParseFLine", token.NoPos, "not found")
+		return
+	}
+	n := 0
+	for _, b := range fn.Blocks {
+		for _, ins := range b.Instrs {
+			call, ok := ins.(*ssa.Call)
+			if !ok {
+				continue
+			}
+			cal := call.Call.StaticCallee()
+			if cal == nil || ssaKey(cal) != "PField.Extend" || len(call.Call.Args) != 2 || !strings.HasSuffix(addrPath(call.Call.Args[0]), ".Reason") {
+				continue
+			}
+			n++
+			good, why := false, "not offset - line-end length of one skipLine call"
+			if bo, ok := call.Call.Args[1].(*ssa.BinOp); ok && bo.Op == token.SUB {
+				x, okx := bo.X.(*ssa.Extract)
+				y, oky := bo.Y.(*ssa.Extract)
+				if okx && oky && x.Tuple == y.Tuple && x.Index == 0 && y.Index == 1 {
+					if sc, ok := x.Tuple.(*ssa.Call); ok && sc.Call.StaticCallee() != nil && sc.Call.StaticCallee().Name() == "skipLine" {
+						good, why = true, "skipLine offset - its own line-end length"
+					}
+				}
+			}
+			c.check(good, "S7", fmt.Sprintf("ParseFLine:Reason.Extend#%d", n), call.Pos(), "the reason is extended to skipLine's offset minus the line-end length of the same call ("+why+")")
+		}
+	}
+	c.check(n >= 2, "S7", "instances", fn.Pos(), fmt.Sprintf("%d Reason.Extend sites (one-shot and resumed; frozen minimum 2)", n))
+}
+
 func init() {
 	register(&PropDef{
 		ID: "C08",
@@ -404,6 +441,7 @@ func init() {
 			{"S2", "look-ahead budget: every index in ParseFLine is discharged by the index-guard rules (14-byte minimum, Prefix summary)", func(c *Ctx) { ruleGFor(c, "S2", map[string]bool{"ParseFLine": true}) }},
 			{"S3", "MethodNo = GetMethodNo(Method.Get(buf)) right after the method token is closed and found non-empty; the method table is searched with bytes.Equal over the whole name (case-sensitive), miss = MOther", ruleS3},
 			{"S6", "the per-state path table of ParseFLine (for every state every path to a return: verdict set, returned offset, state left in the object, field actions; variables abstracted, conditions merged) equals the reviewed reference table committed under sa/ref/", func(c *Ctx) { pathRefRule(c, "S6", "ParseFLine", "fl") }},
+			{"S7", "the reason phrase ends before the terminator actually skipped: every Reason.Extend in ParseFLine (one-shot and resumed path) receives skipLine's offset minus the line-end length returned by the same call, so a lone CR or lone LF costs one byte, CR LF two", ruleS7},
 			{"S5", "exact byte sets of the token scanners the first line is cut with: skipToken goes on over exactly the bytes other than SP HT CR LF, skipWS over exactly SP HT, skipLine over everything but CR LF, skipTokenDelim like skipToken minus its delimiter parameter (exact byte set of buf[offs] at the loop's back edge; an unevaluable test leaves the full set and fails); every offset they return is built from offs, the loop index and constants only, so no other search skips bytes", ruleS5},
 			{"S4", "single-space grammar: Method and URI are closed only when the delimiter byte set is exactly {SP}, Version only on {CR, LF}; a reply is recognised by the 8-byte prefix \"SIP/2.0 \" including the space and its Version excludes that space", ruleS4},
 		},
